@@ -508,7 +508,7 @@ impl RefWorld {
         self.tap_log.push(ev.clone());
         self.emit(id, ev)
       }
-      Op::MapToAny | Op::ObserveOnDefault | Op::SubscribeOnDefault | Op::MatDemat | Op::Timestamp
+      Op::MapToAny | Op::ObserveOnDefault | Op::SubscribeOnDefault | Op::MatDemat | Op::Timestamp | Op::RefCount | Op::ReplayConn
       | Op::WindowFlat(_) | Op::GroupByParityFlat => self.emit(id, ev),
       Op::TimeInterval => match ev {
         N(_) => self.emit(id, N(D::U)),
